@@ -200,7 +200,7 @@ def predicate(ctx, c, r):
             break
     # C17_system_vars / interpreter variables present
     for k, v in sysv.items():
-        if k not in sel and k not in imported and v != '' and k not in full:
+        if k not in (allk if amb else sel) and k not in imported and v != '' and k not in full:
             ctx.fail(case, 'a system variable of the runtime is missing from the task environment', cls)
             break
     for k in pathv:
@@ -327,7 +327,9 @@ def gen_case(rng):
     elif r < 0.18:
         name = rng.choice(['none', 'NONE', 'nOne'])
     else:
-        name = spell(rng.choice(ENAMES[:3] + ['e1', 'missing']), rng.choice(['lower', 'lower', 'upper', 'mixed']))
+        declared = [t[0] for plat in ('default', 'p') for t in tabs[plat]]
+        pool = declared if (declared and rng.random() < 0.85) else ENAMES[:3] + ['e1', 'missing']
+        name = spell(rng.choice(pool).lower(), rng.choice(['lower', 'lower', 'upper', 'mixed']))
     return {'platform': rng.choice(['default', 'p', 'p']), 'envs': tabs, 'sysv': sysv, 'launch': launch, 'name': name,
             'interp': rng.random() < 0.35}
 
@@ -363,7 +365,10 @@ def expressible(x):
 
 
 def explore(ctx, cases):
-    results = run_impl(cases)
+    import time
+    t0 = time.time()
+    results = run_impl(cases, nproc=6)
+    ctx.extra['impl_s'] = round(time.time() - t0, 1)
     terms, low_terms, low_seen = [], [], set()
     for c, r in zip(cases, results):
         if 'build' in r or not expressible(r.get('full')) or not expressible(r.get('unexp')) or 'launch_modified' in r:
@@ -384,8 +389,8 @@ def explore(ctx, cases):
             ctx.sample({'case': c, 'environmentForNode': r['full'], 'unexpanded': r['unexp']}, limit=4)
         terms.append((cterm(c, r), c, r))
         for plat in ('default', 'p'):
-            key = json.dumps([c['envs'][plat]])
-            if key not in low_seen and any(n != n.lower() for n, _ in c['envs'][plat]):
+            key = json.dumps([[n, [k for k, _ in kvs]] for n, kvs in c['envs'][plat]])
+            if key not in low_seen and len(low_seen) < LOWER_CAP and any(n != n.lower() for n, _ in c['envs'][plat]):
                 low_seen.add(key)
                 low_terms.append(('(%s, %s)' % (ctab(c['envs'][plat]),
                                                 clist(r['held'][plat], lambda ne: '(%s, %s)' % (cstr(ne[0]), clist(ne[1], cstr)))),
@@ -407,6 +412,8 @@ def explore(ctx, cases):
         ctx.disagree({'declared': tab}, held, '', 'C17 names: FlowIR.from_dict lower-casing vs Env.Model.lower_names')
 
 
+LOWER_CAP = 800
+
 CORPUS = [
     # the design-time question: a key defined only on the default platform's same-named environment is inherited
     {'platform': 'p', 'envs': {'default': [['Foo', [['ONLYD', 'd'], ['A', 'a-d']]]], 'p': [['foo', [['A', 'a-p']]]]},
@@ -421,7 +428,10 @@ CORPUS = [
 
 
 def run(ctx):
+    global LOWER_CAP
     rng = ctx.rng
+    if ctx.tier != 'quick':
+        LOWER_CAP = 8000
     ctx.rule = ('exhaustive product: platform {default,p} x 8 spellings of the no-selection/none names x default environment '
                 'declared on neither/default/p/both x DEFAULTS x interpreter, and platform x requested spelling '
                 '{lower,upper,mixed} x declared on neither/default/p/both x declared spelling x DEFAULTS on no/default/p layer x '
@@ -432,7 +442,7 @@ def run(ctx):
     cases = list(CORPUS) + exhaustive()
     ctx.count('exhaustive_product_cases', len(cases) - len(CORPUS))
     ctx.exhaustive = True
-    nrand = 1500 if ctx.tier == 'quick' else 25000
+    nrand = 1200 if ctx.tier == 'quick' else 25000
     for _ in range(nrand):
         cases.append(gen_case(rng))
     explore(ctx, cases)
